@@ -71,7 +71,9 @@ def generate(prop, seed, tier):
             'outlen': r.choice([m, m, max(1, m - 1), m + 3, 1]), 'out_kind': r.choice(['str', 'path']), 'scale': r.choice([1, 1, 2]),
             'table_seed': rng.H(seed, 'table'),
             # history before run(): the documented workflow tries the function with check() first (random picks -> numpy global RNG is seeded)
-            'check_first': rng.stream(seed, 'history').choice([0, 0, 0, 1, 3, 5])}
+            'check_first': rng.stream(seed, 'history').choice([0, 0, 0, 1, 3, 5]),
+            # dtype of the data the user function returns (may differ from the input trace dtype)
+            'ret_dtype': rng.stream(seed, 'retdtype').choice([None, None, 'float32', 'float64', 'int32'])}
 
 
 def make_input(scn):
@@ -97,7 +99,7 @@ def execute(scn):
     n = scn['n']
     pat = scn['pattern']
     outlen = scn['outlen']
-    dt = scn['tdtype']
+    dt = scn.get('ret_dtype') or scn['tdtype']
     storage = Storage()
     ths = make_ths(storage, samples, meta, 'in')
     calls = []
@@ -228,7 +230,7 @@ def candidates(scn):
             c = copy.deepcopy(scn)
             c['pattern'] = scn['pattern'][:i] + 'r' + scn['pattern'][i + 1:]
             yield c
-    for key, val in (('label', False), ('gain', False), ('ptw', 1), ('tdtype', 'uint8'), ('out_kind', 'str'), ('scale', 1), ('outlen', scn['m']), ('m', 2), ('check_first', 0)):
+    for key, val in (('label', False), ('gain', False), ('ptw', 1), ('tdtype', 'uint8'), ('out_kind', 'str'), ('scale', 1), ('outlen', scn['m']), ('m', 2), ('check_first', 0), ('ret_dtype', None)):
         if scn.get(key) != val:
             c = copy.deepcopy(scn)
             c[key] = val
